@@ -102,6 +102,10 @@ type gen struct {
 
 	mo *monitors
 
+	// tape: when non-nil, every executed delivery is also appended here
+	// so that the same history can be replayed against another node (C10).
+	tape *[]func()
+
 	// record mode (concurrent phase): deliveries are collected as closures
 	// instead of being executed.
 	recording bool
@@ -112,6 +116,7 @@ type gen struct {
 	lateForCommitted int
 	forgedCopies     int
 	minorityJudged   int
+	attacks          int
 }
 
 func newGen(n *node, rng *rand.Rand) *gen {
@@ -198,6 +203,9 @@ func (g *gen) sendVote(m *voteMsg) (res tmconsensus.HandleVoteProofsResult, ok b
 		g.record = append(g.record, func() { g.doSendVote(m, false) })
 		return 0, false
 	}
+	if g.tape != nil {
+		*g.tape = append(*g.tape, func() { g.doSendVote(m, false) })
+	}
 	return g.doSendVote(m, true)
 }
 
@@ -240,6 +248,9 @@ func (g *gen) sendPH(ph tmconsensus.ProposedHeader, desc string) (tmconsensus.Ha
 	if g.recording {
 		g.record = append(g.record, func() { g.doSendPH(ph, desc) })
 		return 0, false
+	}
+	if g.tape != nil {
+		*g.tape = append(*g.tape, func() { g.doSendPH(ph, desc) })
 	}
 	return g.doSendPH(ph, desc)
 }
@@ -297,6 +308,9 @@ func (g *gen) sendReplay(hd tmconsensus.Header, proof tmconsensus.CommitProof, d
 	if g.recording {
 		g.record = append(g.record, func() { g.doSendReplay(hd, proof, desc) })
 		return nil, false
+	}
+	if g.tape != nil {
+		*g.tape = append(*g.tape, func() { g.doSendReplay(hd, proof, desc) })
 	}
 	return g.doSendReplay(hd, proof, desc)
 }
@@ -1225,6 +1239,7 @@ func (g *gen) attack() {
 	if !ok {
 		return
 	}
+	g.attacks++
 	h := int64(vh) + int64(g.off())
 	if h < 1 {
 		h = 1
